@@ -2,6 +2,7 @@ import WfModel.GenResource
 import WfProofs.ResourceProps
 import WfProofs.ResourceProgress
 import WfProofs.ResourceVal
+import WfProofs.ResourceLock
 /-!
 # C22 — resource injection honors caching and cycle detection under concurrency
 
@@ -10,9 +11,11 @@ Property theorems only (helper lemmas: `WfProofs/Resource*.lean`; model:
 non-cached, sync / async, possibly raising factories (any size, any shape, cycles
 and self-cycles included); every schedule `acts` -- an arbitrary list of `spawn`
 (a step invocation declaring any list of resources, or a bare `manager.get`),
-`tick` (one await-free micro-step of the running task) and `resume` (open the gate
-of a suspended factory / run a waiter that was handed the lock), so any number of
-invocations interleaved at every point where Python can switch tasks.
+`tick` (one await-free micro-step of the running task), `resume` (open the gate
+of a suspended factory / run a waiter that was handed the lock) and `cancel` (throw
+`CancelledError` into an invocation suspended in an async factory or queued on the scope
+lock), so any number of invocations interleaved -- and cancelled -- at every point where
+Python can switch tasks.
 
 Observables: `Injected g s t x v` -- object `v` was handed to invocation `t` for
 resource `x`, as an argument of a factory it called or as an argument of the step;
@@ -214,6 +217,59 @@ finished with the cycle error -/
 example : (settle ⟨true, true⟩ [⟨true, false, false, [1], .obj⟩, ⟨false, false, false, [1], .obj⟩] 5
     (run ⟨true, true⟩ [⟨true, false, false, [1], .obj⟩, ⟨false, false, false, [1], .obj⟩] [.spawn [0] false])).tasks.map (·.phase)
     = [.done (.cycle [0, 1, 1])] := by decide
+
+/-- **Cancellation leaves nothing behind.**  Whatever mix of completions, factory errors,
+cycle errors and cancellations a schedule contains -- a `cancel` hits an invocation
+suspended inside an async factory at any depth of its dependency chain, or queued on the
+scope lock -- whenever no invocation is inside a scope (in particular once every
+invocation has ended) the manager's resolution bookkeeping is neutral: `_resolving` is
+empty, the depth is 0 and the scoped cache is empty.  So the next resolution on the same
+manager (a step that was queued behind the cancelled one, the next run of the same
+workflow instance) starts from the state a new manager has; with `C22_no_false_cycle`
+(stated over the same schedules, `cancel` included) it cannot be refused with a cycle error
+unless the graph has one. -/
+theorem C22_neutral_after_cancellations (b : Bool) (g : Graph) (acts : List Act)
+    (h : ∀ (t : Nat) (k : Task), (run ⟨true, b⟩ g acts).tasks[t]? = some k → k.phase ≠ .active) :
+    (run ⟨true, b⟩ g acts).resolving = [] ∧ (run ⟨true, b⟩ g acts).depth = 0 ∧ (run ⟨true, b⟩ g acts).scache = [] :=
+  (inv_run_excl ⟨true, b⟩ rfl g acts).idle h
+
+/-- `repo -> conn` (`conn` async): invocation 0 resolves `repo` and is cancelled inside
+`conn`'s factory with `_resolving = [repo, conn]`; invocation 1, queued behind it for
+`conn`, takes the lock and gets its object; invocation 2 is cancelled in the queue.  All
+ended, nothing marked, and a later invocation resolves `repo`. -/
+example :
+    let g : Graph := [⟨true, true, false, [], .obj⟩, ⟨true, false, false, [0], .obj⟩]
+    let c : Cfg := ⟨true, true⟩
+    let s0 := settle c g 40 (run c g [.spawn [1] false])
+    let s1 := settle c g 40 (stepD c g (settle c g 40 (stepD c g s0 (.spawn [0] false))) (.spawn [1] false))
+    let s2 := settle c g 40 (stepD c g (settle c g 40 (stepD c g s1 (.cancel 0))) (.resume 1))
+    let s3 := stepD c g s2 (.cancel 2)
+    let s4 := settle c g 40 (stepD c g (settle c g 40 (stepD c g s3 (.resume 1))) (.spawn [1] false))
+    s1.resolving = [1, 0] ∧ s1.tasks.map (·.phase) = [.active, .lockWait, .lockWait] ∧
+    s3.tasks.map (·.phase) = [.done .cancelled, .active, .done .cancelled] ∧ s3.resolving = [0] ∧
+    s4.tasks.map (·.phase) = [.done .cancelled, .done (.ok [1]), .done .cancelled, .done (.ok [2])] ∧
+    s4.resolving = [] ∧ s4.depth = 0 ∧ s4.scache = [] ∧ s4.lock = none := by
+  decide
+
+/-- ... and the scope lock is free: once every invocation has ended -- it returned, raised,
+or was cancelled, inside a factory or in the queue of the lock, also after it had been
+handed the lock but before it ran -- nobody holds the lock and nobody waits for it
+(invariant: the lock is held by, or has been handed to, a live invocation; the queue holds
+distinct waiting invocations, none of them the holder). -/
+theorem C22_lock_free_after_all_ended (b : Bool) (g : Graph) (acts : List Act)
+    (h : ∀ (t : Nat) (k : Task), (run ⟨true, b⟩ g acts).tasks[t]? = some k → ∃ o, k.phase = .done o) :
+    (run ⟨true, b⟩ g acts).lock = none ∧ (run ⟨true, b⟩ g acts).waiters = [] :=
+  lock_free_of_all_done (lock_run ⟨true, b⟩ rfl g acts) h
+
+/-- invocation 0 is cancelled inside the async factory with invocation 1 queued: the lock is
+handed to 1, which is cancelled before it runs -/
+example :
+    let s := run ⟨true, true⟩ [⟨true, true, false, [], .obj⟩]
+      [.spawn [0] false, .tick, .tick, .tick, .spawn [0] false, .tick, .cancel 0, .cancel 1]
+    s.tasks.map (·.phase) = [.done .cancelled, .done .cancelled] ∧ s.lock = none ∧ s.waiters = [] ∧
+    (run ⟨true, true⟩ [⟨true, true, false, [], .obj⟩]
+      [.spawn [0] false, .tick, .tick, .tick, .spawn [0] false, .tick, .cancel 0]).lock = some 1 := by
+  decide
 
 /-- **The property, concurrent, for the tree as it is**: all clauses, for every graph
 and every interleaving -- stated for the configuration regenerated from the
